@@ -38,11 +38,19 @@ fn spread(v: &[i64], p: u64) -> Vec<Vec<StreamElement<i64>>> {
 
 #[allow(clippy::too_many_arguments)]
 fn scenario(lk: LoopKind, comb: Combine, side_left: bool, input: Vec<i64>, side: Vec<i64>, rounds: usize, p: u64, batch: BatchMode, bound: usize) -> Scenario {
-    let name = format!("C11/{:?}-{:?}-sideleft{side_left}/in{:?}/side{:?}/rounds{rounds}/p{p}/{:?}", lk, comb, input, side, batch).replace(' ', "");
-    let descr = format!("{:?} of {rounds} rounds whose body combines ({:?}) the loop stream {:?} with an outside stream {:?}; parallelism {p}, batch mode {:?}", lk, comb, input, side, batch);
+    scenario_on(lk, comb, side_left, input, side, rounds, Layout::Local(p), batch, bound)
+}
+
+#[allow(clippy::too_many_arguments)]
+fn scenario_on(lk: LoopKind, comb: Combine, side_left: bool, input: Vec<i64>, side: Vec<i64>, rounds: usize, layout: Layout, batch: BatchMode, bound: usize) -> Scenario {
+    let p = layout.total_cores();
+    let lname = if layout.hosts() == 1 { format!("p{p}") } else { layout.name() };
+    let name = format!("C11/{:?}-{:?}-sideleft{side_left}/in{:?}/side{:?}/rounds{rounds}/{lname}/{:?}", lk, comb, input, side, batch).replace(' ', "");
+    let descr = format!("{:?} of {rounds} rounds whose body combines ({:?}) the loop stream {:?} with an outside stream {:?}; layout {}, batch mode {:?}", lk, comb, input, side, layout.name(), batch);
     let (input2, side2) = (input.clone(), side.clone());
     let body: crate::rt::Body = Arc::new(move || {
-        let env = Layout::Local(p).env(0);
+      let (input2, side2) = (input2.clone(), side2.clone());
+      let res = crate::kit::run_hosts(&layout, Arc::new(move |host, env| {
         let main = env.stream(ScriptSource::new(spread(&input2, p), Replication::Unlimited)).batch_mode(batch);
         // the side stream: tagged values, probed so that what reaches the body in every round is seen
         let side_vals: Vec<i64> = side2.iter().map(|x| SIDE_BASE + x).collect();
@@ -80,7 +88,7 @@ fn scenario(lk: LoopKind, comb: Combine, side_left: bool, input: Vec<i64>, side:
                     .replay(rounds, 0i64, body!(), |d: &mut i64, x: i64| *d += x, |st: &mut i64, d: i64| *st += d, |_: &mut i64| true)
                     .collect_vec();
                 env.execute_blocking();
-                log_sink("state", 0, out.get());
+                log_sink("state", host, out.get());
             }
             LoopKind::Iterate => {
                 // the body must give back the loop's element type: keep only the loop side of a pair
@@ -88,10 +96,16 @@ fn scenario(lk: LoopKind, comb: Combine, side_left: bool, input: Vec<i64>, side:
                 let st = st.collect_vec();
                 let out = out.collect_vec();
                 env.execute_blocking();
-                log_sink("state", 0, st.get());
-                log_sink("output", 0, out.get());
+                log_sink("state", host, st.get());
+                log_sink("output", host, out.get());
             }
         }
+      }));
+      for (h, r) in res.into_iter().enumerate() {
+          if let Some(p) = r {
+              crate::rt::log(Ev::Text("host-panic", format!("{h}: {p}")));
+          }
+      }
     });
     // reference
     let side_vals: Vec<i64> = side.iter().map(|x| SIDE_BASE + x).collect();
@@ -141,6 +155,9 @@ fn scenario(lk: LoopKind, comb: Combine, side_left: bool, input: Vec<i64>, side:
         for e in &r.log {
             if let Ev::Race(t) = e {
                 return Err(Fail::new(format!("c11-{tagk}-state-race"), format!("{d2}: {t}")));
+            }
+            if let Ev::Text("host-panic", t) = e {
+                return Err(Fail::new(format!("c11-{tagk}-panic"), format!("{d2}: {t}")));
             }
         }
         // what the body produced in each round (all replicas together)
@@ -218,6 +235,23 @@ fn build(tier: Tier) -> Vec<Scenario> {
                                 out.push(scenario(lk, comb, true, vec![2, 5], side.clone(), rounds, p, batch, bound));
                             }
                         }
+                    }
+                }
+            }
+        }
+    }
+    // two hosts: the side input reaches the loop body through the (virtual) network
+    for layout in [Layout::Remote(vec![1, 1]), Layout::Remote(vec![2, 1])] {
+        if tier == Tier::Quick && layout.total_cores() == 3 {
+            continue;
+        }
+        let b = if tier == Tier::Quick { 0 } else { 1 };
+        for (lk, comb) in [(LoopKind::Replay, Combine::Merge), (LoopKind::Replay, Combine::JoinHash), (LoopKind::Replay, Combine::JoinBroadcast), (LoopKind::Iterate, Combine::Merge)] {
+            for side in [vec![1i64], vec![1, 2, 3]] {
+                for batch in [BatchMode::fixed(1), BatchMode::fixed(1024)] {
+                    out.push(scenario_on(lk, comb, false, vec![2, 5], side.clone(), 3, layout.clone(), batch, b));
+                    if comb != Combine::JoinBroadcast {
+                        out.push(scenario_on(lk, comb, true, vec![2, 5], side.clone(), 2, layout.clone(), batch, b));
                     }
                 }
             }
